@@ -9,7 +9,7 @@
 (*                                                                          *)
 (* Run:  TRACE=<file> tlc -workers 1 -config TraceMuxide.cfg TraceMuxide    *)
 (***************************************************************************)
-EXTENDS Muxide, BoxTree, BoxLayout, Json, IOUtils
+EXTENDS Muxide, BoxTree, BoxLayout, Meta, Json, IOUtils
 
 Rec == ndJsonDeserialize(IOEnv.TRACE)
 
@@ -45,13 +45,13 @@ LegalSigs(c, e) ==
     IF Crashed(e) THEN {}
     ELSE (IF Legal(c, e.ok, e.var) THEN {}
           ELSE {Sig("C04", "Legal", c.op,
-                    IF e.ok THEN << "accepted", CallViolated(c) >>
-                    ELSE IF CallViolated(c) = {} THEN << "rejected", e.var >>
-                    ELSE << "wrong-error", e.var, CallViolated(c) >>)})
-         \cup (IF ~e.ok /\ ~VariantFitsCodec(e.var) THEN {Sig("C04", "Legal", c.op, << "foreign-variant", e.var >>)} ELSE {})
+                    IF e.ok THEN ToString(<< "accepted", CallViolated(c) >>)
+                    ELSE IF CallViolated(c) = {} THEN ToString(<< "rejected", e.var >>)
+                    ELSE ToString(<< "wrong-error", e.var, CallViolated(c) >>))})
+         \cup (IF ~e.ok /\ ~VariantFitsCodec(e.var) THEN {Sig("C04", "Legal", c.op, ToString(<< "foreign-variant", e.var >>))} ELSE {})
 
 TotalSigs(c, e) ==
-    IF e.var = "panic" THEN {Sig("C12", "Total", c.op, << "panic", e.msg >>)}
+    IF e.var = "panic" THEN {Sig("C12", "Total", c.op, ToString(<< "panic", e.msg >>))}
     ELSE IF e.var = "hang" THEN {Sig("C12", "Terminates", c.op, "hang")} ELSE {}
 
 SinkQuiet(c, e) ==
@@ -87,7 +87,7 @@ FileSigs(F) ==
               ELSE {})
         \cup C15Sigs(F)
         \cup (IF cfg.facets.tree THEN TreeSigsFile(F, hasA, Len(v), Len(a)) ELSE {})
-        \cup (IF cfg.facets.raw THEN RawSigsFile(F, cfg, v, a) ELSE {})
+        \cup (IF cfg.facets.raw THEN RawSigsFile(F, cfg, v, a) \cup MetaSigs(F, cfg) ELSE {})
 
 FinishSigs(c, e) ==
     LET wrote == e.sa - e.sb IN
@@ -120,8 +120,8 @@ TSinkWrite == /\ IsEv("sw")
 SinkFinishSigs(c, e) ==
     IF ~Has(e, "flen") \/ Crashed(e) \/ phase # "open" THEN {}
     ELSE (IF e.ok /\ sk.failed THEN {Sig("C13", "ErrIffFailed", c.how, "ok-despite-failure")} ELSE {})
-    \cup (IF ~e.ok /\ ~sk.failed THEN {Sig("C13", "ErrIffFailed", c.how, << "error-without-failure", e.var >>)} ELSE {})
-    \cup (IF ~e.ok /\ sk.failed /\ e.var # "Io" THEN {Sig("C13", "ErrIffFailed", c.how, << "wrong-error", e.var >>)} ELSE {})
+    \cup (IF ~e.ok /\ ~sk.failed THEN {Sig("C13", "ErrIffFailed", c.how, ToString(<< "error-without-failure", e.var >>))} ELSE {})
+    \cup (IF ~e.ok /\ sk.failed /\ e.var # "Io" THEN {Sig("C13", "ErrIffFailed", c.how, ToString(<< "wrong-error", e.var >>))} ELSE {})
     \cup (IF ~sk.failed /\ e.ok /\ (e.sa - e.sb # e.flen \/ ~e.same_as_clean)
           THEN {Sig("C13", "ShortWritesHarmless", c.how, "delivered-differs")} ELSE {})
     \cup (IF ~sk.failed /\ e.ok /\ Has(e, "stats") /\ e.stats.bytes # e.flen
